@@ -30,7 +30,12 @@ func c19collect(b *ast.Block, depth int, localNames map[string]bool, out *[]c19d
 		case *ast.LocalVarDeclStat:
 			for i, n := range st.NameList {
 				if depth == 0 {
-					*out = append(*out, c19decl{full: n, short: n, loc: st.VarLocList[i], local: true})
+					fnValue := false
+					if i < len(st.ExpList) {
+						_, fnValue = st.ExpList[i].(*ast.FuncDefExp)
+					}
+					// (field: the value is a function expression - local f = function ... end)
+					*out = append(*out, c19decl{full: n, short: n, loc: st.VarLocList[i], local: true, field: fnValue})
 				}
 				localNames[n] = true
 				if i < len(st.ExpList) {
@@ -228,6 +233,8 @@ var c19templates = []string{
 	/* 9 */ "function \x01g.load(x) end\n\x01g.dbg = true\n\x01g = {}\nfunction \x02k.run() end\n\x02k = { n = 1 }\n\x02k.more = 2\n",
 	// a global table and its members declared on one line
 	/* 10 */ "\x01r = {} function \x01r.lookup(id) end\n\x02c = { a = 1 } \x02c.k = function() end function \x02c:m() end\n",
+	// locals carrying a Lua 5.4 attribute
+	/* 11 */ "local \x01a <const> = 3\nlocal \x02h <close> = nil\nlocal \x03k <const>, \x04m <const> = 1, 2\nlocal \x05e <const> = function(err) end\nlocal \x06t <const> = { n = 1 }\n",
 }
 
 func VerifRun_C19() {
@@ -270,6 +277,14 @@ func VerifRun_C19() {
 	for i := range flat {
 		if !c19inside(src, flat[i].Loc) {
 			verifViolation("", "an outline entry has an ill-formed range (start after end, or outside the document)")
+			break
+		}
+	}
+	for _, d := range decls {
+		if x, ok := c19textAt(src, d.loc); !ok || x != d.short {
+			// (the declarations are collected from the real syntax tree: the location it records for the
+			// declaring identifier must be where the identifier is written)
+			verifViolation("", "the location recorded for a declaring identifier does not cover the identifier")
 			break
 		}
 	}
@@ -318,6 +333,9 @@ func VerifRun_C19() {
 					placed = true
 				}
 			}
+		}
+		if !found || !placed {
+			verifObserve("declaration", d.full)
 		}
 		if !found {
 			verifViolation(class, "a declaration is missing from the document outline")
@@ -424,4 +442,30 @@ func itoa19(n int) string {
 		n /= 10
 	}
 	return s
+}
+
+
+func c19textAt(src []byte, l lexer.Location) (string, bool) {
+	if l.StartLine != l.EndLine || l.StartLine < 1 {
+		return "", false
+	}
+	line, col, a, b := 1, 0, -1, -1
+	for i := 0; i <= len(src); i++ {
+		if line == l.StartLine && col == l.StartColumn {
+			a = i
+		}
+		if line == l.StartLine && col == l.EndColumn {
+			b = i
+		}
+		if i < len(src) && src[i] == '\n' {
+			line++
+			col = 0
+		} else {
+			col++
+		}
+	}
+	if a < 0 || b < a {
+		return "", false
+	}
+	return string(src[a:b]), true
 }
